@@ -12,12 +12,17 @@ pub type Setup = KManager<'static>;
 
 /// The tautology chain is built by the *real* `ZBDDCache::post_reorder_mut` on the empty
 /// stub (concrete control flow); then `init <= max_init` further nodes are symbolic.
+pub const AL_SET: &[KOp] = &[ZBDDOp::Union, ZBDDOp::Intsec, ZBDDOp::Diff, ZBDDOp::SymmDiff, ZBDDOp::Ite];
+pub const AL_SUBSET: &[KOp] = &[ZBDDOp::Subset0, ZBDDOp::Subset1, ZBDDOp::Change];
 pub fn setup_z(top_rank: u32, max_init: usize, order: ([LevelNo; L], [VarNo; L])) -> Setup {
+    setup_za(top_rank, max_init, order, AL_SET)
+}
+pub fn setup_za(top_rank: u32, max_init: usize, order: ([LevelNo; L], [VarNo; L]), allowed: &'static [KOp]) -> Setup {
     let mut m: KManager<'static> = k_new_manager!(N, KCache::miss(), k_extra_none(), order);
     <ZBDDCache<KEdge> as ManagerEventSubscriber<KManager<'static>>>::post_reorder_mut(&mut m);
     assert!(m.len.get() == BASE, "HARNESS: tautology chain occupies L slots");
     m.cache = KCache::step(top_rank, 0);
-    m.cache.set_allowed(&[ZBDDOp::Union, ZBDDOp::Intsec, ZBDDOp::Diff, ZBDDOp::SymmDiff, ZBDDOp::Ite, ZBDDOp::Subset0, ZBDDOp::Subset1, ZBDDOp::Change]);
+    m.cache.set_allowed(allowed);
     let init: usize = kani::any();
     kani::assume(init <= max_init);
     let cap: usize = kani::any();
@@ -130,7 +135,7 @@ macro_rules! zstep_subset {
         #[kani::proof]
         #[kani::unwind(5)]
         fn $name() {
-            let mut s = setup_z(RANK_BIN, $mi, sym::any_order());
+            let mut s = setup_za(RANK_BIN, $mi, sym::any_order(), AL_SUBSET);
             let f = any_edge_z(&s);
             let var: VarNo = kani::any();
             kani::assume((var as usize) < L);
